@@ -290,6 +290,11 @@ func buildConfig(g c09group, pattern []int, exprParent bool, useLevel int) *Prog
 			body = withNested("ublk.orig0")
 		}
 		ts["ublk"] = tpl("ublk", inside(shapeNo/2, &gen.NBlock{Name: "orig0", Body: body}))
+		if shapeNo%3 != 1 {
+			// the library has a block of its own under the name the alias takes: the alias replaces it (it ranks
+			// nowhere any more - parent() in the aliased block goes on to the ancestors)
+			ts["ublk"].Body = append(ts["ublk"].Body, tx("IGNORED-ublk"), &gen.NBlock{Name: "b0", Body: blockBody("ublk.own-b0", true)})
+		}
 	}
 	return &Program{Templates: ts, Main: tname(g.L - 1), Ctx: map[string]interface{}{}}
 }
